@@ -23,6 +23,9 @@ type G struct {
 
 type killed struct{}
 
+// deviations from the default schedule are explored at the first N scheduling points only
+const maxSchedChoicePoints = 24
+
 type Sched struct {
 	p      *Path
 	gs     []*G
@@ -138,7 +141,7 @@ func (s *Sched) pick(rs []*G) *G {
 	}
 	s.points++
 	k := 0
-	if s.budget > 0 {
+	if s.budget > 0 && s.points <= maxSchedChoicePoints {
 		k = s.p.Choose(len(ord))
 		if k != 0 {
 			s.budget--
